@@ -585,6 +585,15 @@ impl<'a> RecordBuilder<'a> {
         let offset_table_size = self.schema.var_column_count() * 2;
         let header_len = 2 + bitmap_size + offset_table_size;
 
+        // variable-column end offsets are u16
+        let var_total: usize = self.var_data.iter().map(|v| v.len()).sum();
+        eyre::ensure!(
+            var_total <= u16::MAX as usize,
+            "record variable data is {} bytes, the record format allows at most {}",
+            var_total,
+            u16::MAX
+        );
+
         let mut result = Vec::with_capacity(
             header_len
                 + self.fixed_data.len()
@@ -613,6 +622,15 @@ impl<'a> RecordBuilder<'a> {
         let bitmap_size = self.null_bitmap.len();
         let offset_table_size = self.schema.var_column_count() * 2;
         let header_len = 2 + bitmap_size + offset_table_size;
+
+        // variable-column end offsets are u16
+        let var_total: usize = self.var_data.iter().map(|v| v.len()).sum();
+        eyre::ensure!(
+            var_total <= u16::MAX as usize,
+            "record variable data is {} bytes, the record format allows at most {}",
+            var_total,
+            u16::MAX
+        );
 
         buffer.clear();
         buffer.reserve(
